@@ -24,7 +24,8 @@ RULE = ('generated object classes (type()/exec): 1-3 interfaces declared on a ba
         'cases the base class still declares an older edition (same name, first half of the methods) of each interface the '
         'exported class declares: the exported class\'s own declaration is in force. A third of the '
         'objects reach IDBusObject only through a registered adapter. A quarter of the implementations are coroutines (async def); '
-        'a third of the pending Deferred outcomes see ANOTHER object exported at the path before they fire.')
+        'a third of the pending Deferred outcomes see ANOTHER object exported at the path before they fire. Some decorated base-class '
+        'methods are overridden in the exported subclass without the decorator: the override runs.')
 ASSUMPTIONS = ['a call without interface may run any implementation bound to that member whose interface signature matches, '
                'or be refused InvalidArgs if some interface declaring the member has another signature',
                'every declared (interface, member) has exactly one binding; members sharing a name across interfaces all '
@@ -32,7 +33,9 @@ ASSUMPTIONS = ['a call without interface may run any implementation bound to tha
                'a no-reply call that fails its lookup may or may not be answered (at most one reply)',
                'an interface name declared at two levels of a class hierarchy: the declaration of the more derived class '
                'is the one in force (Python attribute lookup order; observed behaviour); members found only in the older '
-               'declaration are not called']
+               'declaration are not called',
+               'a subclass method that overrides a @dbusMethod-decorated base method under the same Python name (without '
+               'the decorator) is the implementation that runs (ordinary Python overriding; observed behaviour)']
 
 IFACE_NAMES = ['org.verif.Alpha', 'org.verif.Beta', 'org.verif.Gamma']
 MEMBERS = ['Ma', 'Mb', 'Mc', 'Md', 'Ping', 'Introspect']     # user methods may reuse the names of the standard ones
@@ -137,6 +140,16 @@ def _build(case):
                 loc = {}
                 exec(src, {}, loc)
                 ns[pyname] = O.dbusMethod(ispec['name'], m['name'])(loc[pyname])
+                if m['impl_level'] == 0 and not pyname.startswith('dbus_') and (n + len(case['path'])) % 3 == 0:
+                    # the subclass OVERRIDES the decorated method under the same Python name, without repeating the
+                    # decorator (ordinary method overriding): calls on the exported subclass instance run the override
+                    over_id = 'override:' + impl_id
+                    binding[(ispec['name'], m['name'])] = over_id
+                    src2 = src.replace(repr(impl_id), repr(over_id))
+                    loc2 = {}
+                    exec(src2, {}, loc2)
+                    sub_ns[pyname] = loc2[pyname]
+                    state.setdefault('overrides', []).append(over_id)
     if len(case['path']) % 2:
         sub_ns['__len__'] = lambda self: 0      # an exported object that is false in a boolean context (an empty container)
     Base = type('VBase', (O.DBusObject,), base_ns)
